@@ -245,6 +245,20 @@ var chanThreads = map[string]func(c *drpcsignal.Chan, st *chanState, id int){
 		}
 		sched.Observef("t%d close", id)
 	},
+	// a buffered lazy channel that still holds a value when it is closed: receivers drain the value and
+	// then see the channel closed; nobody blocks
+	"closep": func(c *drpcsignal.Chan, st *chanState, id int) {
+		c.Close()
+		ch := c.Get()
+		st.chans[ch] = true
+		for k := 0; k < 2; k++ {
+			if _, _, got := vs.TryRecv((<-chan struct{})(ch)); !got {
+				st.fails = append(st.fails, "Close returned on a buffered Chan holding a value, but a receive would block: the channel is not closed")
+				break
+			}
+		}
+		sched.Observef("t%d closep", id)
+	},
 	"getrecv": func(c *drpcsignal.Chan, st *chanState, id int) {
 		ch := c.Get()
 		if ch == nil {
@@ -294,6 +308,11 @@ func chanScenario(threads []string) *mc.Scenario {
 		st := &chanState{chans: map[chan struct{}]bool{}}
 		sched.Cur().State()["st"] = st
 		c := new(drpcsignal.Chan)
+		if cnt["closep"] > 0 {
+			// the channel is buffered and holds a value before anybody else touches it
+			c.Make(1)
+			c.Send()
+		}
 		for i, t := range threads {
 			i, f := i, chanThreads[t]
 			sched.Go(fmt.Sprintf("t%d-%s", i, t), func() { f(c, st, i) })
@@ -315,10 +334,10 @@ func chanScenario(threads []string) *mc.Scenario {
 			blocked = append(blocked, b.Name+"@"+b.What)
 		}
 		sort.Strings(blocked)
-		if cnt["close"] > 0 && len(blocked) > 0 {
+		if cnt["close"]+cnt["closep"] > 0 && len(blocked) > 0 {
 			return "goroutines still blocked although Close happened: " + strings.Join(blocked, " ")
 		}
-		if cnt["close"] == 0 && cnt["getrecv"] == 0 && cnt["send"] == cnt["recv"] && len(blocked) > 0 {
+		if cnt["close"]+cnt["closep"] == 0 && cnt["getrecv"] == 0 && cnt["send"] == cnt["recv"] && len(blocked) > 0 {
 			return "balanced sends and receives but goroutines left blocked (lost wake-up): " + strings.Join(blocked, " ")
 		}
 		return ""
@@ -332,6 +351,12 @@ func chanCombos(maxK int) [][]string {
 	for k := 1; k < maxK; k++ {
 		for _, ms := range multisets([]string{"getrecv", "make", "get"}, k) {
 			out = append(out, append([]string{"close"}, ms...))
+		}
+	}
+	// group C: a buffered channel closed while it holds a value, with receivers
+	for k := 0; k < maxK && k <= 2; k++ {
+		for _, ms := range multisets([]string{"getrecv", "recv", "get"}, k) {
+			out = append(out, append([]string{"closep"}, ms...))
 		}
 	}
 	// group B: no Close; sends, receives, capacity probes
